@@ -963,3 +963,141 @@ Proof.
   intros H Hne. destruct ser as [|x r]; [congruence|].
   exact (non_date_cell_robust (x :: r) x (or_introl eq_refl) (H x (or_introl eq_refl))).
 Qed.
+
+(* ------------------------------------------------------------------ magnitude independence of the whole-number rule *)
+Definition whole_num (c : cell) : bool := is_num_cell c && is_integral c.
+
+Lemma scale_is_missing k c : is_missing (scale_cell k c) = is_missing c.
+Proof. destruct c; reflexivity. Qed.
+
+Lemma dropna_scale k col : dropna (map (scale_cell k) col) = map (scale_cell k) (dropna col).
+Proof.
+  unfold dropna. induction col as [|c r IH]; simpl; auto.
+  rewrite scale_is_missing. destruct (is_missing c); simpl; now rewrite IH.
+Qed.
+
+Lemma has_nan_scale k col : has_nan (map (scale_cell k) col) = has_nan col.
+Proof.
+  unfold has_nan. induction col as [|c r IH]; simpl; auto. now rewrite scale_is_missing, IH.
+Qed.
+
+Lemma forallb_map_pres {A} (P : A -> bool) (f : A -> A) l :
+  (forall x, P (f x) = P x) -> forallb P (map f l) = forallb P l.
+Proof. intros H. induction l as [|x r IH]; simpl; auto. now rewrite H, IH. Qed.
+
+Lemma dtype_of_scale k col : dtype_of (map (scale_cell k) col) = dtype_of col.
+Proof.
+  unfold dtype_of. rewrite dropna_scale, has_nan_scale.
+  rewrite !forallb_map_pres; auto; intros c; destruct c; reflexivity.
+Qed.
+
+Lemma rem_mul_0 a k d : Z.rem a (Zpos d) = 0%Z -> Z.rem (a * k) (Zpos d) = 0%Z.
+Proof.
+  intros H. apply Z.rem_divide; [discriminate|]. apply Z.rem_divide in H; [|discriminate].
+  now apply Z.divide_mul_l.
+Qed.
+
+Lemma scale_integral k c : is_integral c = true -> is_integral (scale_cell k c) = true.
+Proof.
+  destruct c; simpl; auto. intros H. apply Z.eqb_eq in H. apply Z.eqb_eq.
+  rewrite Pos.mul_1_r. now apply rem_mul_0.
+Qed.
+
+Lemma Qeq_bool_scale (p q : Q) (k : Z) :
+  k <> 0%Z -> Qeq_bool (p * inject_Z k)%Q (q * inject_Z k)%Q = Qeq_bool p q.
+Proof.
+  intros Hk.
+  assert (NZ : ~ Qeq (inject_Z k) 0%Q) by (unfold Qeq; simpl; lia).
+  destruct (Qeq_bool p q) eqn:E.
+  - apply Qeq_bool_iff in E. apply Qeq_bool_iff. now rewrite E.
+  - destruct (Qeq_bool (p * inject_Z k)%Q (q * inject_Z k)%Q) eqn:F; auto.
+    apply Qeq_bool_iff in F. apply Qmult_inj_r in F; auto.
+    apply Qeq_bool_iff in F. congruence.
+Qed.
+
+Lemma cell_eqb_scale k a b : k <> 0%Z -> cell_eqb (scale_cell k a) (scale_cell k b) = cell_eqb a b.
+Proof.
+  intros Hk. destruct a, b; simpl; try reflexivity.
+  - now apply Qeq_bool_scale.
+  - rewrite inject_Z_mult. now apply Qeq_bool_scale.
+  - rewrite inject_Z_mult. now apply Qeq_bool_scale.
+  - destruct (Z.eqb_spec z z0) as [->|N]; [apply Z.eqb_refl|].
+    apply Z.eqb_neq. intros X. apply N. now apply Z.mul_reg_r in X.
+Qed.
+
+Lemma count_by_map {A} (eqb : A -> A -> bool) (f : A -> A) x l :
+  (forall a b, eqb (f a) (f b) = eqb a b) -> count_by eqb (f x) (map f l) = count_by eqb x l.
+Proof.
+  intros H. unfold count_by. induction l as [|y r IH]; simpl; auto.
+  rewrite H. destruct (eqb x y); simpl; now rewrite IH.
+Qed.
+
+Lemma min_count_by_map {A} (eqb : A -> A -> bool) (f : A -> A) l :
+  (forall a b, eqb (f a) (f b) = eqb a b) -> min_count_by eqb (map f l) = min_count_by eqb l.
+Proof.
+  intros H. unfold min_count_by. rewrite map_map. f_equal.
+  apply map_ext. intros x. now apply count_by_map.
+Qed.
+
+Lemma whole_num_numeric_dtype col :
+  forallb (fun c => whole_num c || is_missing c) col = true -> dropna col <> [] ->
+  is_numeric_dtype (dtype_of col) = true.
+Proof.
+  intros H Hne. apply forallb_dropna in H.
+  assert (N : forallb is_num_cell (dropna col) = true).
+  { apply (forallb_weaken whole_num); auto. intros c X. unfold whole_num in X. apply andb_true_iff in X. tauto. }
+  unfold dtype_of.
+  rewrite (forallb_disjoint is_num_cell is_strlike), (forallb_disjoint is_num_cell is_bool_cell), N; auto;
+    try (intros c; destruct c; simpl; intros; try discriminate; auto).
+  destruct (forallb is_int_cell (dropna col)); destruct (has_nan col); reflexivity.
+Qed.
+
+(* whole-valued numeric columns: the decision does not depend on the magnitude of the values *)
+Theorem infer_scale_invariant k col :
+  k <> 0%Z ->
+  forallb (fun c => whole_num c || is_missing c) col = true ->
+  infer_series_stype (map (scale_cell k) col) = infer_series_stype col.
+Proof.
+  intros Hk H.
+  destruct (dropna col) as [|h t] eqn:E.
+  { rewrite (infer_empty col E). apply infer_empty. now rewrite dropna_scale, E. }
+  assert (Hne : dropna col <> []) by (rewrite E; discriminate).
+  pose proof (whole_num_numeric_dtype col H Hne) as ND.
+  pose proof (forallb_dropna _ _ H) as HW.
+  assert (HI : forallb is_integral (dropna col) = true).
+  { apply (forallb_weaken whole_num); auto. intros c X. unfold whole_num in X. apply andb_true_iff in X. tauto. }
+  assert (HL : is_list h = false).
+  { rewrite E in HW. simpl in HW. apply andb_true_iff in HW. destruct HW as [X _]. destruct h; auto; discriminate. }
+  rewrite (infer_no_list_head col), (infer_no_list_head (map (scale_cell k) col)).
+  2:{ rewrite dropna_scale, E. simpl. destruct h; auto; discriminate. }
+  2:{ now rewrite E. }
+  rewrite dropna_scale, has_nan_scale, dtype_of_scale, E. simpl map. rewrite <- E.
+  change (scale_cell k h :: map (scale_cell k) t) with (map (scale_cell k) (h :: t)). rewrite <- E.
+  unfold infer_scalar_branch. rewrite ND.
+  assert (HI' : forallb is_integral (map (scale_cell k) (dropna col)) = true).
+  { rewrite forallb_forall in HI. apply forallb_forall. intros x Hx. apply in_map_iff in Hx.
+    destruct Hx as [y [<- Iy]]. apply scale_integral. auto. }
+  unfold min_count. rewrite HI, HI', (min_count_by_map cell_eqb (scale_cell k)); auto.
+  intros a b. now apply cell_eqb_scale.
+Qed.
+
+(* the priorities of the string part of the table: timestamp > repeated strings >
+   repeated tokens > free text, for EVERY column of strings (dates, non-dates, mixtures) *)
+Theorem string_priority col :
+  forallb (fun c => is_strlike c || is_missing c) col = true -> dropna col <> [] ->
+  infer_series_stype col = Inferred (Some (string_column_decision (dropna col))).
+Proof.
+  intros H Hne. apply forallb_dropna in H.
+  rewrite infer_no_list_head by (apply (head_not_list is_strlike); auto; kind_false).
+  assert (D : dtype_of col = DString) by (unfold dtype_of; now rewrite H).
+  assert (B : infers_boolean (dropna col) = false).
+  { unfold infers_boolean. rewrite (forallb_disjoint is_strlike is_bool_cell); auto.
+    - destruct (dropna col); reflexivity.
+    - kind_false. }
+  destruct (dropna col) as [|c r] eqn:E; [congruence|]. rewrite <- E in *.
+  unfold infer_scalar_branch, string_column_decision, string_table_spec. rewrite D, B. simpl.
+  rewrite multicat_test_is_spec.
+  destruct (is_timestamp (dropna col)); auto.
+  destruct (above_thresh (min_count (dropna col))); simpl; auto.
+  destruct (multicat_spec (dropna col)); reflexivity.
+Qed.
